@@ -303,5 +303,13 @@ class Exec(CMixin, ExprMixin, StmtMixin, CallMixin):
         keep_pc = st.pc
         st.vars.update(st.old_vars)
         for n_, text in enumerate(contract.ensures):
-            g = self.eval_spec(text, st, env=env, old_state=old)
+            try:
+                g = self.eval_spec(text, st, env=env, old_state=old)
+            except CannotBind as e_:
+                if 'undefined in the current state' not in str(e_):
+                    raise
+                # a postcondition must be defined on every feasible path: on this one it reads something that does not exist
+                # (e.g. the last element of an empty result).  Proved only if the path is infeasible.
+                g = z3.BoolVal(False)
+                text = text + '   [undefined on this path]'
             self.oblige('ensures', g, st, finfo.node, 'postcondition: ' + text, detail='%d' % n_)
